@@ -59,6 +59,12 @@ const SHAPES: &[&str] = &[
     "p($t, $t) :- $G.",
     "{p($t, $t)} :- $G, not not r($t, $t).",
     "p($t, $u, $A) :- $G, r($u, $t).",
+    // variables that no positive body atom guards: only in a negative literal, only in the head
+    "p($A) :- $G, not r($A, Y0), not r($t).",
+    "p :- $G, not not r(Y0, $t).",
+    "p(Y0, $t) :- $G.",
+    "{p($A, Y0)} :- $G, not r($t).",
+    ":- $G, not r(Y0, $t), not not r($A).",
     // one predicate symbol at two arities
     "q($t) :- $G, q($A, $A).",
     "p($t) :- $G, not p($t, $A), not not p.",
@@ -149,7 +155,20 @@ fn is_guarded(r: &asp::Rule) -> bool {
             for t in &atom.terms { if let asp::Term::Variable(v) = t { guarded.insert(v.0.clone()); } }
         }
     }
-    r.variables().iter().all(|v| guarded.contains(&v.0))
+    // a variable that is not guarded must occur only as a direct argument of atoms (head or body, any sign): all values outside
+    // the inner set then behave alike, and the window contains such values
+    let mut loose = BTreeSet::new();
+    let mut inside = BTreeSet::new();
+    let mut atom_terms: Vec<&asp::Term> = Vec::new();
+    if let Some(ts) = r.head.terms() { atom_terms.extend(ts.iter()); }
+    for f in &r.body.formulas {
+        match f {
+            asp::AtomicFormula::Literal(l) => atom_terms.extend(l.atom.terms.iter()),
+            asp::AtomicFormula::Comparison(c) => { for v in c.variables() { inside.insert(v.0); } }
+        }
+    }
+    for t in atom_terms { match t { asp::Term::Variable(v) => { loose.insert(v.0.clone()); } t => { for v in t.variables() { inside.insert(v.0); } } } }
+    r.variables().iter().all(|v| guarded.contains(&v.0) || (loose.contains(&v.0) && !inside.contains(&v.0)))
 }
 
 fn universe(r: &asp::Rule) -> Vec<GroundAtom> {
